@@ -100,14 +100,14 @@ theorem l0r_parseBoundary_refines (t : Buf) {i : Nat} (h : t.HasNul i) :
     ∃ r, parseBoundary t i = .ok r ∧ l0r_BoundaryRel r (Model.parseBoundary (t.view i)) := by
   unfold parseBoundary Model.parseBoundary
   simp only [Proofs.ofString_multipart, Proofs.ofString_boundaryq]
-  rw [startsWithLit_spec h multipartLit (by decide)]
+  rw [startsWithLitCI_spec h multipartLit (by decide)]
   have hlen10a : ([109, 117, 108, 116, 105, 112, 97, 114, 116, 47] : Bytes).length = 10 := rfl
   have hlen10b : ([98, 111, 117, 110, 100, 97, 114, 121, 61, 34] : Bytes).length = 10 := rfl
   rw [hlen10a, hlen10b]
-  by_cases hs : startsWith (t.view i) multipartLit = true
-  · have hs' : startsWith (t.view i) [109, 117, 108, 116, 105, 112, 97, 114, 116, 47] = true := hs
+  by_cases hs : Model.startsWithCI (t.view i) multipartLit = true
+  · have hs' : Model.startsWithCI (t.view i) [109, 117, 108, 116, 105, 112, 97, 114, 116, 47] = true := hs
     simp only [hs, hs', Bool.not_true, Bool.false_eq_true, if_false]
-    obtain ⟨hn1, hv1⟩ := h.add 10 (startsWith_length hs)
+    obtain ⟨hn1, hv1⟩ := h.add 10 (startsWithCI_length hs)
     rw [l0r_scanUntil_spec hn1 59, ← hv1]
     simp only
     have hle1 := length_takeWhile_le (· != 59) (t.view (i + 10))
@@ -129,11 +129,11 @@ theorem l0r_parseBoundary_refines (t : Buf) {i : Nat} (h : t.HasNul i) :
       obtain ⟨hn4, hv4⟩ := hn3.add (Mdsort.nspaces s1) (by rw [hv3]; exact nspaces_le s1)
       rw [hv3] at hv4
       generalize p1 + 1 + Mdsort.nspaces s1 = p2 at hn4 hv4 ⊢
-      rw [startsWithLit_spec hn4 boundaryLit (by decide), hv4]
-      by_cases hs2 : startsWith (s1.drop (Mdsort.nspaces s1)) boundaryLit = true
-      · have hs2' : startsWith (s1.drop (Mdsort.nspaces s1)) [98, 111, 117, 110, 100, 97, 114, 121, 61, 34] = true := hs2
+      rw [startsWithLitCI_spec hn4 boundaryLit (by decide), hv4]
+      by_cases hs2 : Model.startsWithCI (s1.drop (Mdsort.nspaces s1)) boundaryLit = true
+      · have hs2' : Model.startsWithCI (s1.drop (Mdsort.nspaces s1)) [98, 111, 117, 110, 100, 97, 114, 121, 61, 34] = true := hs2
         simp only [hs2, hs2', Bool.not_true, Bool.false_eq_true, if_false]
-        obtain ⟨hn5, hv5⟩ := hn4.add 10 (by rw [hv4]; exact startsWith_length hs2)
+        obtain ⟨hn5, hv5⟩ := hn4.add 10 (by rw [hv4]; exact startsWithCI_length hs2)
         rw [hv4] at hv5
         rw [l0r_scanUntil_spec hn5 34, hv5]
         simp only
@@ -175,13 +175,13 @@ theorem l0r_parseBoundary_refines (t : Buf) {i : Nat} (h : t.HasNul i) :
             have hz3 : z ∈ s3 := (List.takeWhile_sublist _).subset hz
             rw [← hv5] at hz3
             exact view_no_nul t _ z hz3
-      · have hs2'' : startsWith (s1.drop (Mdsort.nspaces s1)) boundaryLit = false := by simpa using hs2
-        have hs2' : startsWith (s1.drop (Mdsort.nspaces s1)) [98, 111, 117, 110, 100, 97, 114, 121, 61, 34] = false :=
+      · have hs2'' : Model.startsWithCI (s1.drop (Mdsort.nspaces s1)) boundaryLit = false := by simpa using hs2
+        have hs2' : Model.startsWithCI (s1.drop (Mdsort.nspaces s1)) [98, 111, 117, 110, 100, 97, 114, 121, 61, 34] = false :=
           hs2''
         simp only [hs2', hs2'', Bool.not_false, if_true]
         exact ⟨.notMultipart, rfl, trivial⟩
-  · have hs'' : startsWith (t.view i) multipartLit = false := by simpa using hs
-    have hs' : startsWith (t.view i) [109, 117, 108, 116, 105, 112, 97, 114, 116, 47] = false := hs''
+  · have hs'' : Model.startsWithCI (t.view i) multipartLit = false := by simpa using hs
+    have hs' : Model.startsWithCI (t.view i) [109, 117, 108, 116, 105, 112, 97, 114, 116, 47] = false := hs''
     simp only [hs', hs'', Bool.not_false, if_true]
     exact ⟨.notMultipart, rfl, trivial⟩
 
